@@ -122,6 +122,8 @@ class extract_visitor(NodeVisitor):
                 continue
             name = nn  # type: ast.Name # type: ignore[assignment]
             body_start.add_name(AssignedName(name.id, np(node.body[0]), np(name), node.iter))
+        # a subscript or attribute target is evaluated at every iteration: for values[i] in ...
+        self.visit_in_flow(node.target, body_start)
         body = self.visit_in_flow(node.body, body_start)
         body_start.loop(body)
 
@@ -289,6 +291,7 @@ class extract_visitor(NodeVisitor):
                 name.flow = pp  # type: ignore[attr-defined]
                 # a comprehension variable does not hide an outer name in the rest of the scope
                 p.add_name(AssignedName(name.id, np(node), np(name), g.iter), local=PY2)
+            self.visit_in_flow(g.target, p)
 
             if g.ifs:
                 for inode in g.ifs:
